@@ -2,6 +2,7 @@ package sym
 
 import (
 	"fmt"
+	"os"
 	"go/token"
 	"go/types"
 	"math/big"
@@ -936,6 +937,9 @@ func (st *State) builtin(fr *frame, b *ssa.Builtin, args []Value, c *ssa.CallCom
 	case "recover":
 		p := fr.deferOf
 		if p != nil && p.panicking != nil && !p.recovered {
+			if st.E.Trace {
+				fmt.Fprintf(os.Stderr, "  recover() in %s catches %s: %s %s\n", fr.fn, p.panicking.Kind, p.panicking.Detail, showValue(p.panicking.Val))
+			}
 			p.recovered = true
 			v := p.panicking.Val
 			if v == nil {
